@@ -96,6 +96,12 @@ def run(ctx):
                 m = re.search(r"live=(-?\d+) mlive=(-?\d+)", o)
                 if not m or int(m.group(1)) != 0 or int(m.group(2)) != 0:
                     spec.append((ci, "clear left allocator blocks alive: " + o))
+    # reference map: operation histories in which the allocator refuses whole calls (refmap.c built with the FLATCC_CALLOC macro routed to the harness)
+    from props import c18
+    rm_lines, rm_refusals, rm_fail, rm_tie = c18.fault_stage(ctx)
+    if rm_fail:
+        rm_fail["theorems_no_longer_tied"] = [t["name"] for t in ths if "refmap" in t["name"]]
+        violation(ctx, "refmap_%d.json" % ctx.seed, rm_fail, no_failing_input=rm_tie)
     if spec:
         ci, why = spec[0]
         c = cases[ci] if ci >= 0 else None
@@ -111,6 +117,7 @@ def run(ctx):
                 "and kind, then sampled) x {fails once, fails from then on} for: custom allocator calls, custom emitter calls, and every malloc/calloc/realloc of the "
                 "runtime through the FLATCC_ALLOC macros (builder buffers, emitter pages, finalize copy). Each: NDEBUG runtime under ASan/UBSan; the faulted build must "
                 "return failure or complete with the fault-free bytes; reset; rebuild == Lean model fresh bytes; clear leaves 0 live blocks." % cap,
+        "refmap_fault_histories": rm_lines, "refmap_refused_calls": rm_refusals,
         "scenarios": len(cases), "fault_points": nfault, "by_kind": per_kind, "reported_failure": nfail, "completed_identically": ntolerated, "fault_not_reached": nnotreached,
         "traces_validated_against_impl": nfault, "correspondence_disagreements": len(corr), "spec_oracle_failures": len(spec)})
     ctx.samples = [{"fault_line": blocks[0][1][2][:200], "result": outs[0][2][:120]}] if blocks else []
